@@ -424,7 +424,11 @@ class ProgGen:
         if x < 0.42:
             return C("-", self.var(vs))
         op = r.choice(["+", "-", "*", "//", "+", "-"])
-        return C(op, self.expr(vs, depth - 1), self.expr(vs, depth - 1))
+        e = C(op, self.expr(vs, depth - 1), self.expr(vs, depth - 1))
+        if not terms.term_vars(e) and r.random() < 0.8:
+            # variable-free compound operands are kept rare (the implementation miscompiles comparisons on them)
+            e = C(op, self.var(vs), e[2][1]) if r.random() < 0.5 else C(op, e[2][0], self.var(vs))
+        return e
 
     # ---- goals
     def call_goal(self, vs, later):
@@ -732,3 +736,66 @@ def estimate_program(prog):
                 a += ab; w += wb + 1
         est[k] = (a, w)
     return est
+
+
+# ------------------------------------------------------------------ classification of disagreements (stable keys)
+def has_cut_in_cond(t, in_cond=False):
+    """a cut lexically inside the condition of an if-then(-else) (not hidden by a nested call/1, \\+ ...)"""
+    if t[0] == "atom":
+        return in_cond and t[1] == "!"
+    if t[0] != "cmp":
+        return False
+    f, a = t[1], t[2]
+    if f == "->" and len(a) == 2:
+        return has_cut_in_cond(a[0], True) or has_cut_in_cond(a[1], in_cond)
+    if f in (",", ";") and len(a) == 2:
+        return has_cut_in_cond(a[0], in_cond) or has_cut_in_cond(a[1], in_cond)
+    return any(has_cut_in_cond(x, False) for x in a)      # arguments of call/N, \\+, once, G = Goal ...
+
+
+def has_const_compare(t):
+    """an arithmetic comparison one of whose operands is a variable-free compound expression"""
+    if t[0] != "cmp":
+        return False
+    if t[1] in ("<", "=<", ">", ">=", "=:=", "=\\=") and len(t[2]) == 2:
+        a, b = t[2]
+        if (a[0] == "cmp" and not terms.term_vars(a)) or (b[0] == "cmp" and not terms.term_vars(b)):
+            return True
+    return any(has_const_compare(x) for x in t[2])
+
+
+def has_char_list(t):
+    """a list cell whose head is a one-character atom (stored as a compact string by the implementation)"""
+    if t[0] != "cmp":
+        return False
+    if t[1] == "." and len(t[2]) == 2 and t[2][0][0] == "atom" and len(t[2][0][1]) == 1:
+        return True
+    return any(has_char_list(x) for x in t[2])
+
+
+def has_tail_elem_share(t):
+    """a partial list whose tail variable is also one of its elements, e.g. [X|X] or [X,a,Y|X]"""
+    if t[0] != "cmp":
+        return False
+    if t[1] == "." and len(t[2]) == 2:
+        items, tail = terms.list_view(t)
+        if tail[0] == "var" and any(x == tail for x in items):
+            return True
+    return any(has_tail_elem_share(x) for x in t[2])
+
+
+def uses_char_lists(prog, q):
+    return any(has_char_list(t) for t in [q] + [h for h, _ in prog] + [b for _, b in prog])
+
+
+def failure_key(prog, q, obs=None):
+    ts = [q] + [b for _, b in prog]
+    if any(has_cut_in_cond(t) for t in ts):
+        return "cut-in-if-then-else-condition-is-not-local"
+    if any(has_const_compare(t) for t in ts):
+        return "constant-arithmetic-comparison-clobbers-argument-registers"
+    if any(has_char_list(t) for t in [q] + [h for h, _ in prog] + [b for _, b in prog]):
+        return "one-char-atom-list-compact-string-corruption"
+    if any(has_tail_elem_share(h) for h, _ in prog):
+        return "clause-head-partial-list-with-tail-variable-as-element-loses-sharing"
+    return "answers-differ"
